@@ -11,6 +11,9 @@ package exchange
 //@   ensures[C13] buffer-open: cast(result, *exchange.concurrencyOperator).buffer != nil && !closed(cast(result, *exchange.concurrencyOperator).buffer)
 
 //@ func NewCoalesce
+// The merge goroutines of the coalesce operator call Next of the children with nobody to recover above them:
+// only operators whose Next cannot panic may be coalesced (in practice: concurrency operators).
+//@   requires[C13] children-never-panic-in-next: forall i in 0..len(operators) :: operators[i] != nil && istype(operators[i], *exchange.concurrencyOperator)
 //@   assigns nothing
 //@   ensures[C02,C11,C18] holds-operators: istype(result, *exchange.coalesceOperator) && fresh(result) &&
 //@       cast(result, *exchange.coalesceOperator).pool == pool &&
@@ -54,14 +57,45 @@ package exchange
 //@   requires c != nil && ctx != nil
 //@   loop 0 invariant c != nil
 
-// The merge goroutines of coalesce.Next call Next of a child that is itself a concurrency operator (every
-// shard and every remote execution is wrapped by NewConcurrent in execution.newOperator): its Next only
-// reads the buffer filled by pull, which contains the panics of whatever runs below it.
+// The merge goroutine of coalesce.Next for child opIdx: nothing above it recovers, so it must not panic.
+// Its child is a concurrency operator (contained); the ids of the child's batch are re-based by the
+// child's offset before the batch is merged under the mutex; ids and values stay paired.
+// Sequential abstraction: `out` is only touched while c.mu is held; outOK is the invariant of that lock.
+// Assumed (sibling lock-step): the batches of all children of one round have the same number of steps.
+//@ pred outOK(out) = forall k in 0..len(out) :: len(out[k].SampleIDs) == len(out[k].Samples) && allocated(out[k].SampleIDs) && allocated(out[k].Samples)
+//@ pred outSep(out, c) = forall k in 0..len(out) :: ref(out[k].SampleIDs) != ref(c.sampleOffsets)
+//@ pred inOK(in) = allocated(in) && (forall k in 0..len(in) :: len(in[k].SampleIDs) == len(in[k].Samples) && fresh(in[k].SampleIDs))
 //@ func (*coalesceOperator).Next$2
-//@   trusted assumed not to let a panic escape: the children of a coalesce operator are concurrency operators, whose Next receives from a channel
+//@   requires c != nil && ctx != nil && o != nil && istype(o, *exchange.concurrencyOperator) && c.pool != nil && 0 <= opIdx && opIdx < len(c.sampleOffsets) && !closed(errChan) && outOK(out) && outSep(out, c) && allocated(out) && allocated(c.sampleOffsets) &&
+//@       c.sampleOffsets[opIdx] + o.nSeries <= 9223372036854775807
+//@   assigns elems(execution/model.StepVector)@out, elems(float64), elems(uint64) except c.sampleOffsets, ghost chsent@errChan, ghost ended@o
+//@   at line "if len(in) > 0 && out == nil {" assume sibling-lockstep: isnil(out) || len(out) == len(in)
+//@   ensures[C18] merged-batch-keeps-ids-and-values-paired: outOK(out) && outSep(out, c)
+// Sample identity does not depend on which goroutine finishes first (C11): before the batch is merged every
+// id of child opIdx has been moved into the child's own window [offset, offset + number of its series).
+//@   at line "c.mu.Lock()" assert[C11,C18] ids-rebased-into-the-childs-window: forall k in 0..len(in) :: forall j in 0..len(in[k].SampleIDs) ::
+//@       c.sampleOffsets[opIdx] <= in[k].SampleIDs[j] && in[k].SampleIDs[j] < c.sampleOffsets[opIdx] + o.nSeries
+//@   ensures[C15] child-error-is-reported: callres("model.VectorOperator.Next", 1, 1) != nil ==> sent(errChan) == old(sent(errChan)) + 1
+//@   loop 0 invariant c != nil && o != nil && 0 <= opIdx && opIdx < len(c.sampleOffsets) && c.pool != nil && outOK(out) && outSep(out, c) && !isnil(in) && inOK(in) && allocated(out) && (isnil(out) || ref(in) != ref(out)) &&
+//@       c.sampleOffsets[opIdx] + o.nSeries <= 9223372036854775807 && c.sampleOffsets[opIdx] == old(c.sampleOffsets[opIdx]) && preexisting(c.sampleOffsets)
+//@   loop 0 invariant id-buffers-are-separate: forall a in 0..len(in) :: forall b in a+1..len(in) :: ref(in[a].SampleIDs) != ref(in[b].SampleIDs) || ref(in[a].SampleIDs) == 0
+//@   loop 0 invariant[C11] rebased-so-far: forall k in 0..rangeindex+1 :: forall j in 0..len(in[k].SampleIDs) ::
+//@       c.sampleOffsets[opIdx] <= in[k].SampleIDs[j] && in[k].SampleIDs[j] < c.sampleOffsets[opIdx] + o.nSeries
+//@   loop 0 invariant[C11] rest-as-delivered: forall k in rangeindex+1..len(in) :: forall j in 0..len(in[k].SampleIDs) :: in[k].SampleIDs[j] < o.nSeries
+//@   loop 1 invariant c != nil && o != nil && 0 <= opIdx && opIdx < len(c.sampleOffsets) && c.pool != nil && outOK(out) && outSep(out, c) && !isnil(in) && inOK(in) && allocated(out) && (isnil(out) || ref(in) != ref(out)) &&
+//@       c.sampleOffsets[opIdx] + o.nSeries <= 9223372036854775807 && c.sampleOffsets[opIdx] == old(c.sampleOffsets[opIdx]) && preexisting(c.sampleOffsets) &&
+//@       0 <= rangeindex0 && rangeindex0 < len(in) && sameslice(vector.SampleIDs, in[rangeindex0].SampleIDs)
+//@   loop 1 invariant id-buffers-are-separate1: forall a in 0..len(in) :: forall b in a+1..len(in) :: ref(in[a].SampleIDs) != ref(in[b].SampleIDs) || ref(in[a].SampleIDs) == 0
+//@   loop 1 invariant[C11] rebased-so-far1: forall k in 0..rangeindex0 :: forall j in 0..len(in[k].SampleIDs) ::
+//@       c.sampleOffsets[opIdx] <= in[k].SampleIDs[j] && in[k].SampleIDs[j] < c.sampleOffsets[opIdx] + o.nSeries
+//@   loop 1 invariant[C11] rest-as-delivered1: forall k in rangeindex0+1..len(in) :: forall j in 0..len(in[k].SampleIDs) :: in[k].SampleIDs[j] < o.nSeries
+//@   loop 1 invariant[C11] this-vector-rebased-up-to-i: (forall j in 0..rangeindex+1 :: c.sampleOffsets[opIdx] <= vector.SampleIDs[j] && vector.SampleIDs[j] < c.sampleOffsets[opIdx] + o.nSeries) &&
+//@       (forall j in rangeindex+1..len(vector.SampleIDs) :: vector.SampleIDs[j] < o.nSeries)
+//@   loop 2 invariant c != nil && o != nil && c.pool != nil && outOK(out) && outSep(out, c) && !isnil(in) && 0 <= i && i <= len(in) && len(out) == i && !isnil(out) && fresh(out) && inOK(in) && ref(in) != ref(out)
+//@   loop 3 invariant c != nil && o != nil && c.pool != nil && outOK(out) && outSep(out, c) && !isnil(in) && 0 <= i && i <= len(in) && len(out) == len(in) && inOK(in) && ref(in) != ref(out) && allocated(out)
 
 // concurrencyOperator.Next: starts pull (once) and hands on what arrives through the buffer. It cannot
-// panic itself (no `panics may`): that is what the trusted contract of the coalesce merge goroutines rests on.
+// panic itself (no `panics may`): that is what the merge goroutines of the coalesce operator rest on (panics may unless ... in the stream contract).
 //@ func (*concurrencyOperator).Next
 //@   requires ctx != nil && c != nil && c.next != nil && c.buffer != nil && !closed(c.buffer)
 //@   ensures[C18] error-means-no-batch: result1 != nil ==> isnil(result0)
@@ -75,7 +109,7 @@ package exchange
 //@ func (*coalesceOperator).loadSeries
 //@   requires c != nil && ctx != nil && c.pool != nil && (forall j in 0..len(c.operators) :: c.operators[j] != nil)
 //@   assigns exchange.coalesceOperator.sampleOffsets, exchange.coalesceOperator.series, model.VectorPool.stepSize
-//@   ensures[C11,C18] one-offset-per-child: result == nil ==> len(c.sampleOffsets) == len(c.operators)
+//@   ensures[C11,C18] one-offset-per-child: result == nil ==> len(c.sampleOffsets) == len(c.operators) && allocated(c.sampleOffsets)
 // The ids of child i are re-based by the number of series of the children before it - whatever the order
 // in which the loaders finished (C11):
 //@   at line "c.sampleOffsets[i] = offset" assert[C11,C18] offset-is-the-number-of-series-of-the-children-before: offset == len(c.series)
@@ -86,3 +120,22 @@ package exchange
 //@       (isnil(c.series) || fresh(c.series)) && allocated(c.series) && (isnil(c.series) || ref(c.series) != ref(c.sampleOffsets))
 //@   loop 1 invariant offset-counts-the-series-so-far: offset == len(c.series)
 //@   loop 1 invariant offsets-so-far: forall j in 0..rangeindex+1 :: c.sampleOffsets[j] <= len(c.series) && (j >= 1 ==> c.sampleOffsets[j-1] <= c.sampleOffsets[j])
+
+// coalesceOperator.Next: starts one merge goroutine per child and returns what they merged. The function
+// itself cannot panic; every merge goroutine is started with the child and the offset of its own index.
+// Assumed (hand-off from the loader goroutines is not modelled): the series list has room for the series
+// of every child behind the child's offset.
+//@ pred coInv(c) = c != nil && c.pool != nil && (forall j in 0..len(c.operators) :: c.operators[j] != nil && istype(c.operators[j], *exchange.concurrencyOperator))
+//@ func (*coalesceOperator).Next
+//@   requires ctx != nil && coInv(c)
+//@   requires series-loaded-once: c.once != 0 ==> len(c.sampleOffsets) == len(c.operators) && allocated(c.sampleOffsets)
+//@   assigns exchange.coalesceOperator.sampleOffsets, exchange.coalesceOperator.series, exchange.coalesceOperator.once, model.VectorPool.stepSize, elems(uint64), elems(float64), elems(execution/model.StepVector), ghost chsent, ghost chclosed, ghost ended
+//@   ensures[C18] error-means-no-batch: result1 != nil ==> isnil(result0)
+//@   at line "for idx, o := range c.operators {" assume series-lists-as-reported-by-the-children: forall j in 0..len(c.operators) :: c.sampleOffsets[j] + c.operators[j].nSeries <= 9223372036854775807
+//@   at exchange.(*coalesceOperator).Next$2 assert[C11] merge-goroutine-of-child-idx: $opIdx == idx && $o == c.operators[idx]
+//@   loop 0 invariant a: ctx != nil && coInv(c)
+//@   loop 0 invariant b: len(c.sampleOffsets) == len(c.operators)
+//@   loop 0 invariant cc: allocated(c.sampleOffsets)
+//@   loop 0 invariant d: !closed(errChan)
+//@   loop 0 invariant e: outOK(out) && outSep(out, c) && allocated(out)
+//@   loop 0 invariant f: forall j in 0..len(c.operators) :: c.sampleOffsets[j] + c.operators[j].nSeries <= 9223372036854775807
